@@ -7,6 +7,11 @@ common.setup_env()
 
 
 def main(argv):
+    # HiGHS 1.15.1 has been observed to report FEASIBLE models infeasible -- with presolve on some instances, with presolve off
+    # on others (DESIGN 10.4: witnesses from MinErrorFlow, kFlowDecompCycles, MinFlowDecompCycles).  Every property here is stated
+    # relative to a solver that answers correctly, so the harness gives HiGHS a second opinion: a model that comes back infeasible
+    # is solved once more with the other presolve setting, and counts as infeasible only if both runs say so.
+    common.install_second_opinion()
     if len(argv) >= 2 and argv[0] == "--replay":
         body = json.load(open(argv[1]))
         pid = body["property"]
@@ -47,11 +52,6 @@ def main(argv):
         broken.append({"kind": "forbidden-vernacular", "hits": forb[:20]})
     if broken:
         os.environ["VERIF_SCALE"] = str(float(os.environ.get("VERIF_SCALE", "1")) * 3)   # search harder for a failing input
-    # HiGHS 1.15.1 has been observed to report FEASIBLE models infeasible -- with presolve on some instances, with presolve off
-    # on others (DESIGN 10.4: witnesses from MinErrorFlow, kFlowDecompCycles, MinFlowDecompCycles).  Every property here is stated
-    # relative to a solver that answers correctly, so the harness gives HiGHS a second opinion: a model that comes back infeasible
-    # is solved once more with the other presolve setting, and counts as infeasible only if both runs say so.
-    common.install_second_opinion()
     try:
         if os.path.exists(common.FPMODEL):
             eng.run(ctx)
